@@ -609,7 +609,7 @@ func genC04(r *rng, tier string, st *stats) []taggedScen {
 	}
 	out = append(out, commonPool(r, tier, "C04")...)
 	st.Scope = fmt.Sprintf("%d random flows (depth <= 3, nested, cyclic, with batch and partial nodes) + every node kind alone; one failure injected at every callback of the fault-free path", nflows)
-	st.Rule = "fault-free run first, then one scenario per callback position with that callback returning a user error (3 flavours: sentinel, %w-wrapped, custom type); all injected scenarios are non-trivial; distinct by scenario hash"
+	st.Rule = "fault-free run first, then one scenario per callback position with that callback returning a user error (8 flavours by position: plain, %w-wrapped, custom type, wrapping context.DeadlineExceeded, wrapping context.Canceled, non-comparable slice-backed, errors.Join, outer type with a foreign cause); all injected scenarios are non-trivial; distinct by scenario hash"
 	st.Extra["nontrivial_floor"] = nflows
 	return out
 }
